@@ -376,9 +376,19 @@ def subprocess_cases(part, lo, hi):
     lst = _TERMS["subproc"]
     saved = (config.backend_path, config.solver_timeout)
     config.backend_path = os.path.join(harness.VERIF, "mc", "sugar_model.py")
+    from cspuz.backend import _subproc
+    import types
+
+    saved_ps = (_subproc._PSUTIL_AVAILABLE, getattr(_subproc, "psutil", None))
     try:
         for idx in range(lo, hi):
             kind, src = lst[idx]
+            # the three ways run_subprocess can be driven: no timeout, timeout without psutil, timeout with psutil (Popen path)
+            mode = idx % 3
+            config.solver_timeout = None if mode == 0 else 60
+            _subproc._PSUTIL_AVAILABLE = mode == 2
+            if mode == 2:
+                _subproc.psutil = types.SimpleNamespace(Process=lambda pid: None)
             for goal in ("pos", "neg"):
                 build = term_builder(kind, src, goal)
                 try:
@@ -421,6 +431,12 @@ def subprocess_cases(part, lo, hi):
                         c02.judge(part, case, vs, sols, km, r, name + "-subprocess")
     finally:
         config.backend_path, config.solver_timeout = saved
+        _subproc._PSUTIL_AVAILABLE = saved_ps[0]
+        if saved_ps[1] is None:
+            if hasattr(_subproc, "psutil"):
+                del _subproc.psutil
+        else:
+            _subproc.psutil = saved_ps[1]
         os.environ.pop("SUGAR_MODEL_PICK", None)
         os.environ.pop("SUGAR_MODEL_ORDER", None)
 
